@@ -38,7 +38,7 @@ Qed.
 
 Lemma Inv_mono c k k' s : k <= k' -> Inv c k s -> Inv c k' s.
 Proof.
-  intros Hk [? ? S ? ? ? ? ? ?]. constructor; auto. intros x Hx. eapply slab_ok_mono; eauto.
+  intros Hk [? ? S ? ? ? ? ? ? ? ? ?]. constructor; auto. intros x Hx. eapply slab_ok_mono; eauto.
 Qed.
 
 Lemma rdisj_spec a b : rdisj a b = true <-> fst a + snd a <= fst b \/ fst b + snd b <= fst a.
@@ -52,6 +52,42 @@ Proof. unfold norm_req. destruct (n =? 0) eqn:E; [apply N.eqb_eq in E|apply N.eq
 
 Lemma bucket_hand_out c s o n' nreq idx i : bucket (fst (hand_out c s o n' nreq idx)) i = bucket s i.
 Proof. reflexivity. Qed.
+
+(* ---------- counting helpers (page accounting, footprint) ---------- *)
+Lemma avail_len_le c k lv x : slab_ok c k lv x -> N.of_nat (length (sl_avail x)) <= nobj c (sl_item x).
+Proof.
+  intros S.
+  assert (Hincl : incl (sl_avail x) (objs_up (sl_addr c x) (sl_item x) (N.to_nat (nobj c (sl_item x))))).
+  { intros a Ha. destruct (so_avail _ _ _ _ S a Ha) as [(i & Hi & ->) _].
+    apply in_objs_up. exists (N.to_nat i). split; [lia|]. rewrite N2Nat.id. reflexivity. }
+  pose proof (NoDup_incl_length (so_nodup _ _ _ _ S) Hincl) as L. rewrite length_objs_up in L. lia.
+Qed.
+
+Lemma cfree_le c k lv l i :
+  (forall x, In x l -> slab_ok c k lv x) ->
+  sumN (map (g_free i) l) <= sumN (map (g_cnt i) l) * nobj c (b2s i).
+Proof.
+  intros H. rewrite <- sumN_scale. apply sumN_pointwise. intros y Hy. unfold g_free, g_cnt.
+  destruct (sl_idx y =? i) eqn:E; [|lia]. apply N.eqb_eq in E.
+  pose proof (avail_len_le c k lv y (H y Hy)) as L. unfold sl_item in L. rewrite E in L. lia.
+Qed.
+
+Lemma sumN_zero {A} (l : list A) : sumN (map (fun _ => 0) l) = 0.
+Proof. induction l as [|a l IH]; cbn; [reflexivity|exact IH]. Qed.
+
+Lemma g_cnt_same i x x' : sl_idx x' = sl_idx x -> g_cnt i x' = g_cnt i x.
+Proof. unfold g_cnt. intros ->. reflexivity. Qed.
+
+Lemma slab_pages_same c x x' : sl_idx x' = sl_idx x -> slab_pages c x' = slab_pages c x.
+Proof. unfold slab_pages, sl_len, sl_item. intros ->. reflexivity. Qed.
+
+Lemma nth_upd_same_N {A} (l : list A) (i : N) f d n :
+  length l = N.to_nat n -> i < n -> nth (N.to_nat i) (upd_nth l (N.to_nat i) f) d = f (nth (N.to_nat i) l d).
+Proof. intros L H. apply nth_upd_nth_same. lia. Qed.
+
+Lemma nth_upd_other_N {A} (l : list A) (i j : N) f d :
+  i <> j -> nth (N.to_nat j) (upd_nth l (N.to_nat i) f) d = nth (N.to_nat j) l d.
+Proof. intros H. apply nth_upd_nth_other. lia. Qed.
 
 (* ---------- pop from the head slab ---------- *)
 Section Pop.
@@ -181,6 +217,24 @@ Proof.
         -- exists y; auto.
         -- exists x. cbn in Hyf, Hyi. repeat split; auto. rewrite Ha. discriminate.
   - intros y Hy. unfold live_ptrs. cbn. right. apply (I_large_live _ _ _ I y Hy).
+  - unfold pages, pop_state. cbn [slabs larges]. rewrite map_upd_slab_const; [apply (I_used _ _ _ I)|].
+    intros z Hz Hzf. rewrite (slab_by_frame c k s I z x Hz Hx) by congruence. apply slab_pages_same. reflexivity.
+  - rewrite !upd_nth_length. apply (I_cnt_len _ _ _ I).
+  - intros i Hi'. destruct (I_foot _ _ _ I i Hi') as (E1 & E2 & E3). destruct (I_cnt_len _ _ _ I) as [L1 L2].
+    pose proof (sumN_upd_slab (g_free i) h x x' (slabs s) Hnd Hx Hf) as U1.
+    pose proof (sumN_upd_slab (g_cnt i) h x x' (slabs s) Hnd Hx Hf) as U2.
+    rewrite (g_cnt_same i x x') in U2 by reflexivity.
+    assert (G1 : g_free i x = if idx =? i then N.of_nat (S (length av)) else 0).
+    { unfold g_free. rewrite Hi, Ha. reflexivity. }
+    assert (G2 : g_free i x' = if idx =? i then N.of_nat (length av) else 0).
+    { unfold g_free, x', set_avail. cbn [sl_idx sl_avail]. rewrite Hi. reflexivity. }
+    unfold foot_ok, nlive_of, peak_of, cfree, cnum, pop_state in *. cbn [slabs nlive peak]. fold x'.
+    destruct (N.eq_dec i idx) as [-> |Hne].
+    + rewrite (nth_upd_same_N (nlive s) idx _ 0 (nbuckets c) L1 Hidx).
+      rewrite (nth_upd_same_N (peak s) idx _ 0 (nbuckets c) L2 Hidx).
+      rewrite N.eqb_refl in G1, G2. lia.
+    + rewrite !nth_upd_other_N by congruence.
+      assert (Q : (idx =? i) = false) by (apply N.eqb_neq; congruence). rewrite Q in G1, G2. lia.
 Qed.
 
 End Pop.
@@ -372,6 +426,32 @@ Proof.
       * intros (y & Hy & Q). exists y. split; [right; assumption|exact Q].
       * intros (y & [<- |Hy] & Hyf & Hyi & Hya); [cbn in Hyi; congruence|exists y; auto].
   - intros y Hy. unfold live_ptrs. cbn. right. apply (I_large_live _ _ _ I y Hy).
+  - unfold pages, newslab_state. cbn [slabs larges map sumN]. rewrite (I_used _ _ _ I). unfold pages, slab_pages, sl_len, sl_item.
+    cbn [sl_idx]. fold item. lia.
+  - rewrite !upd_nth_length. apply (I_cnt_len _ _ _ I).
+  - intros i Hi'. destruct (I_foot _ _ _ I i Hi') as (E1 & E2 & E3). destruct (I_cnt_len _ _ _ I) as [L1 L2].
+    assert (Hlen : N.of_nat (S (length av)) = nobj c item).
+    { pose proof (length_carve base item cnt) as L. rewrite Hc in L. cbn [length] in L. unfold cnt in L. lia. }
+    assert (Hzero : i = idx -> sumN (map (g_free i) (slabs s)) = 0).
+    { intros ->. assert (Z : sumN (map (g_free idx) (slabs s)) <= sumN (map (fun _ => 0) (slabs s))).
+      { apply sumN_pointwise. intros y Hy. unfold g_free. destruct (sl_idx y =? idx) eqn:E; [|lia].
+        apply N.eqb_eq in E. destruct (sl_avail y) eqn:Ey; [cbn; lia|exfalso].
+        destruct (I_partial _ _ _ I idx Hidx) as [_ M].
+        assert (In (sl_frame y) (bucket s idx)) as Hin by (apply M; exists y; repeat split; auto; congruence).
+        rewrite Hb in Hin. exact Hin. }
+      assert (Z0 : sumN (map (fun _ : slab => 0) (slabs s)) = 0) by apply sumN_zero.
+      lia. }
+    unfold foot_ok, nlive_of, peak_of, cfree, cnum, newslab_state in *. cbn [slabs nlive peak map sumN].
+    fold x'.
+    assert (G3 : g_free i x' = if idx =? i then N.of_nat (length av) else 0) by reflexivity.
+    assert (G4 : g_cnt i x' = if idx =? i then 1 else 0) by reflexivity.
+    rewrite G3, G4.
+    destruct (N.eq_dec i idx) as [-> |Hne].
+    + rewrite (nth_upd_same_N (nlive s) idx _ 0 (nbuckets c) L1 Hidx).
+      rewrite (nth_upd_same_N (peak s) idx _ 0 (nbuckets c) L2 Hidx).
+      rewrite N.eqb_refl. specialize (Hzero eq_refl). fold item in E1, E3 |- *. lia.
+    + rewrite !nth_upd_other_N by congruence.
+      assert (Q : (idx =? i) = false) by (apply N.eqb_neq; congruence). rewrite Q. lia.
 Qed.
 
 End NewSlab.
@@ -472,6 +552,9 @@ Proof.
       * right. exists y. split; [right; assumption|auto].
   - intros i Hi'. apply (I_partial _ _ _ I i Hi').
   - intros y [<- |Hy]; unfold live_ptrs; cbn; [left; reflexivity|right; apply (I_large_live _ _ _ I y Hy)].
+  - unfold pages. cbn [slabs larges map sumN]. rewrite (I_used _ _ _ I). unfold pages, large_pages. cbn [lg_len]. lia.
+  - apply (I_cnt_len _ _ _ I).
+  - intros i Hi'. apply (I_foot _ _ _ I i Hi').
 Qed.
 
 End NewLarge.
